@@ -433,7 +433,7 @@ pub(crate) fn add_int_permutation<W, R, T>(
             }
             // the number of permutations is only compared with i: stop multiplying once it is larger
             let mut total: usize = 1;
-            for factor in n-k+1..=n {
+            for factor in (n-k..n).map(|f| f + 1) {
                 total = total.saturating_mul(factor);
                 if total > i {
                     break;
